@@ -291,7 +291,13 @@ pub fn hook_point(label: &'static str) {
     match label {
         "ipts.drop.count" | "ipt.drop.count" => DROP_BRANCH.with(|b| b.set(0)),
         "ipts.drop.not_last" | "ipt.drop.not_last" => DROP_BRANCH.with(|b| b.set(1)),
-        "ipts.clear.write" | "ipt.clear.write" => DROP_BRANCH.with(|b| b.set(2)),
+        // The map lock itself is the scheduling point (point-on-acquire stand-in under the cfg):
+        // the first write acquisition after the count test of a drop is the clearing one.
+        "ipts.map.write" | "ipt.map.write" => DROP_BRANCH.with(|b| {
+            if b.get() == 0 {
+                b.set(2);
+            }
+        }),
         // Only thread-local state is touched between this point and the next one (the lock
         // acquisition): yielding here adds schedules but no behaviours. Thorough tier only.
         "si.local.lookup" if !YIELD_AT_LOCAL_POINTS.load(SeqCst) => return,
